@@ -30,7 +30,8 @@ CONSTANTS Remotes,      \* remote routers
           OutKeys,      \* 5-tuples the local host sends on: <<remote, service, local port, "out">>
           InKeys,       \* 5-tuples remote hosts send on to a local service port: <<remote, service, 0, "in">>
           Senders,      \* the routers that send error pings (any authenticated router can)
-          Codes         \* the error codes they use, out of {"unreachable", "denied", "rejected"}
+          Codes,        \* the error codes they use, out of {"unreachable", "denied", "rejected"}
+          Mirror        \* TRUE: remote hosts also send packets that mirror the outbound 5-tuples
 (* The table is keyed by the 5-tuple WITHOUT direction: the packet that mirrors an outbound 5-tuple (the       *)
 (* answer of the remote host) finds the outbound entry - In(k) for k in OutKeys.                                *)
 
@@ -72,7 +73,7 @@ Out(k) ==
   /\ UNCHANGED <<rcvd, quiet>>
 
 In(k) ==
-  /\ k \in Keys
+  /\ k \in InKeys \/ (Mirror /\ k \in OutKeys)
   /\ LET e == IF ent[k].st = "none" THEN [st |-> FreshIn(k), age |-> 0, inb |-> TRUE] ELSE [ent[k] EXCEPT !.age = 0]
      IN /\ ent' = [ent EXCEPT ![k] = e]
         /\ act' = [name |-> "in", r |-> k[1], s |-> k[2], lp |-> k[3], dir |-> k[4], verdict |-> e.st]
@@ -151,6 +152,17 @@ DeniedOnlyByDst == [][act'.name = "err" /\ act'.taken /\ act'.code \in {"denied"
 Flow == CHOOSE k \in OutKeys : k[1] = 1 /\ k[2] = "ic"
 LiveSpec == Spec /\ WF_vars(Tick) /\ WF_vars(Clean) /\ SF_vars(Out(Flow))
 Recovers == [](quiet /\ OutAllowed(Flow) => <>(ent[Flow].st \in {"allowed", "none"}))
+
+(* Q3 (refuted - see X02): without any error ping at all, an outbound packet gets the verdict of the outbound    *)
+(* policy.  In the code a packet FROM the remote host on the mirrored 5-tuple (for ICMPv6 - no ports - any      *)
+(* ICMPv6 packet from that router) creates the entry first, with the INBOUND verdict, and the local host's own  *)
+(* packets then get that verdict for as long as the entry lives.                                                 *)
+OutFollowsPolicy == act.name = "out" => act.verdict = FreshOut(<<act.r, act.s, act.lp, "out">>)
+
+(* `act` is not part of the VIEW: a state predicate over act is only evaluated for the first representative of a  *)
+(* view class.  The action forms below are evaluated for EVERY transition TLC generates.                          *)
+PolicyHoldsA == [][PolicyHolds']_vars
+OutFollowsPolicyA == [][OutFollowsPolicy']_vars
 
 DumpEdge == PrintT("EDGE " \o ToJson(View) \o "\t" \o ToJson(act') \o "\t" \o ToJson(View'))
 =============================================================================
